@@ -119,6 +119,11 @@ def main(argv):
   out['solver_time_s'] = round(out['solver_time_s'], 3)
   sys.stdout.write('\n@@VPJSON@@' + json.dumps(out) + '\n')
   sys.stdout.flush()
+  try:
+    import atexit
+    atexit._run_exitfuncs()      # harness temp dirs are removed by atexit handlers
+  except BaseException:
+    pass
   os._exit(0)
 
 
